@@ -123,6 +123,28 @@ theorem silent_for_unknown_id (c : Cfg) (s s' : Node) (i : Nat) (hk : s.known i 
     unfold Node.known at hk
     simp [hr] at hk
 
+/-- **Only received cells refresh `last_activity`; sending does not.**  A tick (which sends the periodic pings), a
+    datagram from outside (which sends a data cell back over the circuit), a retry (which sends a create / extend), a
+    destroy, a local removal (which may send destroys) or traffic accounting leave the `last_activity` of every
+    circuit, relay and exit entry untouched (`QuietStep`/`LastKept`, Lemmas.lean: every entry afterwards stems from an
+    entry with the same key and the same `last_activity`).  So "inactive" in the `…_reclaimed_within_bound` theorems
+    means: no *incoming* cell was processed for the entry — an originator whose far end vanished is not kept alive by
+    its own pings. -/
+theorem only_received_cells_refresh (c : Cfg) (s : Node) :
+    (∀ ev, ev.isLocal = true → QuietStep s (s.step c ev)) ∧ QuietStep s (s.tick c) :=
+  ⟨fun ev h => QuietStep.step c s ev h, QuietStep.tick c s⟩
+
+/-- the same over any stretch of time in which only the node's own timers run (sweeps, cache timeouts, pings):
+    no `last_activity` changes, so together with `circuit_reclaimed_within_bound` an originator that receives nothing
+    from `t₀` on has dropped its ready circuit by `t₀ + inactive + period + delay` (example `silentPeer` below). -/
+theorem ticks_keep_last (c : Cfg) (k : Nat) (s : Node) : QuietStep s (s.ticks c k) := by
+  induction k generalizing s with
+  | zero => exact QuietStep.refl s
+  | succ k ih =>
+    have h1 := QuietStep.tick c s
+    have h2 := ih (s.tick c)
+    exact ⟨h1.1.trans h2.1, h1.2.1.trans h2.2.1, h1.2.2.trans h2.2.2⟩
+
 /-
   Full statement intended for half-built circuits (DESIGN.md, C09):
     a live circuit that still lacks hops is gone by
@@ -199,6 +221,18 @@ example : ((reach demoCfg 0 (lostCreated ++ [(60, .outside 0)])).circuits.map (f
 example : ((reach demoCfg 0 [(1, .cell 5 false true true (.create 1)), (2, .cell 6 false true true .ping)]).outs,
            (reach demoCfg 0 [(1, .cell 5 false true true (.create 1)), (2, .cell 5 false false true .ping)]).outs)
           = ([Out.cell 1 5 3], [Out.cell 1 5 3, Out.cell 1 5 7]) := by decide +kernel
+
+/-- non-vacuity for `only_received_cells_refresh`: a 1-hop circuit becomes ready at time 2 (the created arrives), then
+    the peer falls silent.  The originator keeps pinging (pings at 7, 14, 21 in the output log; none at 28, the circuit is closing) but its entry
+    still has last_activity 2, is closing after the sweep at 25 and gone at 30 -/
+def silentPeer : List (Nat × Ev) :=
+  [(1, .mkCircuit 9 1 4 0 100), (2, .cell 9 false true true (.created 100 true none))]
+
+example : ((reach demoCfg 0 (silentPeer ++ [(24, .outside 0)])).circuits.map (fun p => (p.2.last, p.2.closing, p.2.gone)),
+           (reach demoCfg 0 (silentPeer ++ [(29, .outside 0)])).circuits.map (fun p => (p.2.last, p.2.closing, p.2.gone)),
+           (reach demoCfg 0 (silentPeer ++ [(30, .outside 0)])).circuits.map (fun p => (p.2.last, p.2.closing, p.2.gone)),
+           ((reach demoCfg 0 (silentPeer ++ [(30, .outside 0)])).outs.filter (· == Out.cell 4 9 6)).length)
+          = ([(2, false, false)], [(2, true, false)], [(2, true, true)], 3) := by decide +kernel
 
 example : 0 < Gen.cfg.period := by decide
 
